@@ -367,3 +367,102 @@ def module_roundtrip(enc, style):
     finally:
         shutil.rmtree(base, ignore_errors=True)
     return out
+
+
+_C08 = {
+    "plain": {"/t": "text ${x} <%def name='d()'>D${x}</%def>${d()}|${capture(d)}"},
+    "inherits": {"/t": "<%inherit file='/base'/><%def name='d()'>D ${parent.pd()} ${local.uri} ${self.uri} ${x}</%def>body ${d()}",
+                 "/base": "<%def name='pd()'>PD</%def>B(${next.body()})"},
+    "namespaces": {"/t": "<%namespace name='ns' file='/lib'/><%def name='d()'>${ns.f()} ${x}</%def>${d()} <%include file='/lib'/>",
+                   "/lib": "<%def name='f()'>F</%def>lib"},
+    "nonascii": {"/t": "## -*- coding: utf-8 -*-\ncafé Ж ${x} <%def name='d()'>€${x}</%def>${d()}"},
+    "latin1": {"/t": "## -*- coding: iso-8859-1 -*-\ncafé ü ${x} <%def name='d()'>ß${x}</%def>${d()}"},
+}
+_C08_ENC = {"latin1": "iso-8859-1"}
+
+
+def path_equivalence(name, path):
+    """(output on `path`, output of the same template compiled from a string); for get_def the def's output from the body"""
+    import os
+    import shutil
+    import tempfile
+    from mako.lookup import TemplateLookup
+    from mako.template import Template, ModuleTemplate
+    from mako.runtime import Context
+    from mako import util
+    files = _C08[name]
+    data = {"x": "Xé"}
+    ref_lk = TemplateLookup()
+    for k, v in files.items():
+        ref_lk.put_string(k, v)
+    ref = ref_lk.get_template("/t").render_unicode(**data)
+    base = tempfile.mkdtemp(prefix="c08")
+    try:
+        root = os.path.join(base, "root")
+        os.makedirs(root)
+        for k, v in files.items():
+            with open(os.path.join(root, k.lstrip("/")), "wb") as fp:
+                fp.write(v.encode(_C08_ENC.get(name, "utf-8")))
+        mods = os.path.join(base, "mods")
+        try:
+            return _path_equivalence_inner(name, path, files, data, ref_lk, ref, root, mods)
+        except Exception as e:
+            return ("raised %s: %s" % (type(e).__name__, e), ref)
+    finally:
+        shutil.rmtree(base, ignore_errors=True)
+
+
+def _path_equivalence_inner(name, path, files, data, ref_lk, ref, root, mods):
+    import os
+    from mako.lookup import TemplateLookup
+    from mako.template import Template, ModuleTemplate
+    from mako.runtime import Context
+    from mako import util
+    if True:
+        if path == "string":
+            got = ref_lk.get_template("/t").render_unicode(**data)
+        elif path == "file":
+            got = TemplateLookup([root]).get_template("/t").render_unicode(**data)
+        elif path == "module_directory":
+            got = TemplateLookup([root], module_directory=mods).get_template("/t").render_unicode(**data)
+        elif path == "reloaded":
+            TemplateLookup([root], module_directory=mods).get_template("/t").render_unicode(**data)
+            got = TemplateLookup([root], module_directory=mods).get_template("/t").render_unicode(**data)
+        elif path == "render_unicode":
+            got = TemplateLookup([root], output_encoding="utf-8").get_template("/t").render(**data).decode("utf-8")
+        elif path == "render_context":
+            buf = util.FastEncodingBuffer()
+            ctx = Context(buf, **data)
+            ref_lk.get_template("/t").render_context(ctx)
+            got = buf.getvalue()
+        elif path == "module_template":
+            lk = TemplateLookup([root], module_directory=mods)
+            t = lk.get_template("/t")
+            mt = ModuleTemplate(t.module, lookup=lk, template_filename=t.filename, template_source=t.source)
+            got = mt.render_unicode(**data)
+        elif path == "get_def":
+            # the def rendered on its own must give what it gives when called from the body
+            got = TemplateLookup([root]).get_template("/t").get_def("d").render_unicode(**data)
+            one = TemplateLookup()
+            for k, v in files.items():
+                one.put_string(k, v)
+            one.put_string("/only", files["/t"].split("</%def>")[0] + "</%def><%def name='probe__()'>${d()}</%def>")
+            marker = ref_lk.get_template("/t")
+            # reference: the text the body's ${d()} call contributes = full output of a body consisting only of that call
+            files2 = dict(files)
+            head = files["/t"].split("</%def>")[0] + "</%def>"
+            files2["/t"] = head + "${d()}"
+            lk2 = TemplateLookup()
+            for k, v in files2.items():
+                lk2.put_string(k, v)
+            full = lk2.get_template("/t").render_unicode(**data)
+            ref = full[2:-1] if name == "inherits" else full      # strip the base template's B( ... ) wrapper
+            if name == "nonascii":
+                ref = full[full.index("€"):]
+            if name == "latin1":
+                ref = full[full.index("ß"):]
+            if name == "plain":
+                ref = full[full.index("D"):]
+        else:
+            raise ValueError(path)
+        return (got, ref)
